@@ -6,7 +6,7 @@
 //! assertions are on).
 
 use crate::common::*;
-use crate::{ensure, ensure_eq_bytes};
+use crate::{ensure, ensure_eq_bytes, pick};
 use vp_base::obj::*;
 use vp_base::tape::{self, Tape};
 
@@ -32,7 +32,7 @@ fn nonzero_prefill(t: &mut Tape<'_>) -> (u8, u32) {
 }
 
 fn cts_gate(ctx: &Ctx, t: &mut Tape<'_>, r: &mut Report) -> CheckResult {
-    let suite = ctx.pick_suite(t, |s| !s.cts.is_empty());
+    let suite = pick!(ctx, t, r, |s| s.has_cts());
     let v = CtsVariant::ALL[t.idx(6)];
     let f = suite.cts(v).unwrap();
     let bs = suite.info.bs;
@@ -63,7 +63,7 @@ fn cts_gate(ctx: &Ctx, t: &mut Tape<'_>, r: &mut Report) -> CheckResult {
 }
 
 fn unequal_b2b(ctx: &Ctx, t: &mut Tape<'_>, r: &mut Report) -> CheckResult {
-    let suite = ctx.pick_suite(t, |_| true);
+    let suite = pick!(ctx, t, r, |_| true);
     let bs = suite.info.bs;
     let key = gen_key(t, suite);
     let which = t.idx(4);
@@ -166,7 +166,7 @@ fn unequal_b2b(ctx: &Ctx, t: &mut Tape<'_>, r: &mut Report) -> CheckResult {
 
 fn padded_dec(ctx: &Ctx, t: &mut Tape<'_>, r: &mut Report) -> CheckResult {
     let mode = t.pick(&[Mode::Cbc, Mode::Pcbc, Mode::Ige, Mode::Cfb, Mode::Ofb]);
-    let suite = ctx.pick_suite(t, |s| s.info.bs > 1 && (s.info.has_dec || !mode.needs_dec(Direction::Dec)));
+    let suite = pick!(ctx, t, r, |s| s.bs > 1 && (s.has_dec || !mode.needs_dec(Direction::Dec)));
     let f = suite.block_mode(mode, Direction::Dec).unwrap();
     let unit = f.unit();
     let key = gen_key(t, suite);
@@ -191,7 +191,7 @@ fn padded_dec(ctx: &Ctx, t: &mut Tape<'_>, r: &mut Report) -> CheckResult {
 }
 
 fn ctor_lengths(ctx: &Ctx, t: &mut Tape<'_>, r: &mut Report) -> CheckResult {
-    let suite = ctx.pick_suite(t, |_| true);
+    let suite = pick!(ctx, t, r, |_| true);
     let bs = suite.info.bs;
     let klen_ok = suite.info.key_len;
     let family = t.idx(4);
@@ -282,7 +282,7 @@ fn ctor_lengths(ctx: &Ctx, t: &mut Tape<'_>, r: &mut Report) -> CheckResult {
 /// Arbitrary op programs over every type; the only oracle is "no panic" (raised by the engine)
 /// and length preservation.
 fn omnibus(ctx: &Ctx, t: &mut Tape<'_>, r: &mut Report) -> CheckResult {
-    let suite = ctx.pick_suite(t, |_| true);
+    let suite = pick!(ctx, t, r, |_| true);
     let bs = suite.info.bs;
     let par = suite.info.par;
     let key = gen_key(t, suite);
